@@ -28,21 +28,24 @@ PROP = 'C02'
 def model(rep, t):
     wd = tlc.workdir('c02')
     depth = 2 if t == 'quick' else 3
-    cfg = tlc.write_cfg(os.path.join(wd, 'ty.cfg'), constants={'Depth': depth, 'AvgDeclares': '"number"', 'ChainSees': 'TRUE'}, invariants=['WellFormed'], constraints=['Export'])
+    cfg = tlc.write_cfg(os.path.join(wd, 'ty.cfg'), constants={'Depth': depth, 'AvgDeclares': '"number"', 'ChainSees': 'TRUE', 'PkFollows': 'TRUE'}, invariants=['WellFormed'], constraints=['Export'])
     res = tlc.run_tlc('Typing', cfg, workers=1, allow_violation=False, timeout=6000)
     rep.add_tlc(res, 'Typing: WellFormed in every state of programs of <= %d steps over the abstract menu' % depth)
     cases = res.cases
     if t == 'quick':
-        cfg = tlc.write_cfg(os.path.join(wd, 'ty3.cfg'), constants={'Depth': 3, 'AvgDeclares': '"number"', 'ChainSees': 'TRUE'}, invariants=['WellFormed'])
+        cfg = tlc.write_cfg(os.path.join(wd, 'ty3.cfg'), constants={'Depth': 3, 'AvgDeclares': '"number"', 'ChainSees': 'TRUE', 'PkFollows': 'TRUE'}, invariants=['WellFormed'])
         res3 = tlc.run_tlc('Typing', cfg, allow_violation=False, timeout=6000)
         rep.add_tlc(res3, 'Typing depth 3 (model level only)')
-    cfg = tlc.write_cfg(os.path.join(wd, 'tyold.cfg'), constants={'Depth': 2, 'AvgDeclares': '"source"', 'ChainSees': 'TRUE'}, invariants=['WellFormed'])
+    cfg = tlc.write_cfg(os.path.join(wd, 'tyold.cfg'), constants={'Depth': 2, 'AvgDeclares': '"source"', 'ChainSees': 'TRUE', 'PkFollows': 'TRUE'}, invariants=['WellFormed'])
     old = tlc.run_tlc('Typing', cfg)
     if not old.violated:
         raise tlc.MachineryError('vacuity: Typing.tla with AvgDeclares="source" must violate WellFormed')
-    cfg = tlc.write_cfg(os.path.join(wd, 'tychain.cfg'), constants={'Depth': 2, 'AvgDeclares': '"number"', 'ChainSees': 'FALSE'}, invariants=['WellFormed'])
+    cfg = tlc.write_cfg(os.path.join(wd, 'tychain.cfg'), constants={'Depth': 2, 'AvgDeclares': '"number"', 'ChainSees': 'FALSE', 'PkFollows': 'TRUE'}, invariants=['WellFormed'])
     if not tlc.run_tlc('Typing', cfg).violated:
         raise tlc.MachineryError('vacuity: Typing.tla with ChainSees=FALSE (a computed field does not see the fields computed before it in the same call) must violate WellFormed')
+    cfg = tlc.write_cfg(os.path.join(wd, 'typk.cfg'), constants={'Depth': 2, 'AvgDeclares': '"number"', 'ChainSees': 'TRUE', 'PkFollows': 'FALSE'}, invariants=['WellFormed'])
+    if not tlc.run_tlc('Typing', cfg).violated:
+        raise tlc.MachineryError('vacuity: Typing.tla with PkFollows=FALSE (renaming / removing a key field leaves the primaryKey alone) must violate WellFormed')
     rep.notes['non_vacuity'] = 'with join avg/median declaring the source field type (pinned behaviour) TLC finds WellFormed violated'
     seen, out = set(), []
     for c in cases:
@@ -92,6 +95,8 @@ def real_step(s, first_name):
         return DF.delete_resource(0)
     if k == 'concatenate':
         return DF.concatenate(dict(a=[], b=[]), target=dict(name='cc'))
+    if k == 'concat_ren':
+        return DF.concatenate(dict(A=['a'], b=[]), target=dict(name='cr'))
     if k == 'concat_head':
         return DF.concatenate(dict(a=[], b=[]), target=dict(name='ch'), resources=0)
     if k == 'concat_tail':
@@ -104,6 +109,13 @@ def real_step(s, first_name):
         return DF.find_replace([dict(name='b', patterns=[dict(find='x', replace='X')])], resources=0)
     if k == 'validate':
         return DF.validate()
+    if k == 'to_int_clear':
+        from dataflows.base import schema_validator as sv
+        return DF.set_type('[bz]', type='integer', resources=0, on_error=sv.clear)
+    if k == 'set_pk_a':
+        return DF.set_primary_key(['a'])
+    if k == 'set_pk_ab':
+        return DF.set_primary_key(['a', 'b'], resources=0)
     if k == 'join':
         return DF.join('res_1', ['a'], 'res_2', ['a'], {'j': dict(name=s['f'], aggregate=s['agg'])})
     raise ValueError(k)
@@ -128,6 +140,17 @@ def check_output(ds_rows, desc):
         fnames = [f['name'] for f in fdesc]
         if len(set(fnames)) != len(fnames):
             problems.append('field names of %s are not unique: %s' % (r['name'], fnames))
+        pk = r['schema'].get('primaryKey') or []
+        gone = [k for k in ([pk] if isinstance(pk, str) else pk) if k not in fnames]
+        if gone:
+            problems.append('the primaryKey of %s names %s, which the schema does not declare (fields: %s)' % (r['name'], gone, fnames))
+        try:
+            from tableschema import Schema
+            sch = Schema(r['schema'])
+            if not sch.valid:
+                problems.append('the schema of %s is not a valid Table Schema: %s' % (r['name'], str(sch.errors[0])[:120]))
+        except Exception as e:                  # total
+            problems.append('the schema of %s is rejected: %s' % (r.get('name'), str(e)[:120]))
         try:
             fields = {f['name']: Field(f, missing_values=r['schema'].get('missingValues', [''])) for f in fdesc}
             for fld in fields.values():
@@ -205,8 +228,9 @@ def replay_case(c):
             return dict(ok=False, why=problems[0], problems=problems[:4])
         got_names = [r['name'] for r in desc['resources']]
         got_fields = [[[f['name'], f['type']] for f in r['schema']['fields']] for r in desc['resources']]
-        if got_names != c['names'] or got_fields != c['fields']:
-            return dict(ok=True, drift='descriptor differs from Typing.tla', got=[got_names, got_fields], want=[c['names'], c['fields']])
+        got_pks = [list(r['schema'].get('primaryKey') or []) for r in desc['resources']]
+        if got_names != c['names'] or got_fields != c['fields'] or got_pks != [list(x) for x in c['pks']]:
+            return dict(ok=True, drift='descriptor differs from Typing.tla', got=[got_names, got_fields, got_pks], want=[c['names'], c['fields'], c['pks']])
         return dict(ok=True)
     finally:
         shutil.rmtree(root, ignore_errors=True)
@@ -227,6 +251,9 @@ def random_program(item):
         # explored by the model with their Enabled predicate; here every entry is used at most once
         names = [n for n in names if n not in ('concatenate', 'sources')]
         prog = r.sample(names, r.randint(1, 8))
+        if 'rename_a' in prog and 'set_primary_key' in prog and prog.index('rename_a') < prog.index('set_primary_key'):
+            # set_primary_key(['a']) where the first resource has no field a any more: not a well-typed program
+            return dict(ok=True, illtyped=True, prog=prog)
         typed = r.random() < 0.4
         if typed:
             srcs = [[dict(a=i, b='s%d' % i, c=Decimal(i) / 2, td=datetime.date(2020, 1, 1 + i), te=datetime.datetime(2020, 1, 1, i), tf=[i], tg=dict(k=i), th=(i % 2 == 0)) for i in range(4)],
